@@ -2,7 +2,7 @@
    vector by the smallest energy-conserving amount; event log matches the trace.
    Models: Model/Hop.v, Model/Events.v; proofs: Proof/HopP.v, Proof/EventsP.v. *)
 From Coq Require Import Reals List Lra Bool Arith.
-From MV Require Import Ops RInst Vec Hop HopP Events EventsP.
+From MV Require Import Ops RInst Vec Cplx Mat Hop HopP Events EventsP Propagate Traj TrajP.
 Import ListNotations.
 Open Scope R_scope.
 
@@ -65,6 +65,21 @@ Proof.
   destruct (run_from k active atts) as [acts evs]. repeat split; try assumption; apply H3; assumption.
 Qed.
 Print Assumptions C04_events_match_trace.
+
+(* the whole loop (Model/Traj.run, any number of passes): the active state after the run is the
+   initial one updated by the accepted attempts alone, in order — a frustrated attempt or a pass
+   without attempt never changes it; one attempt record per pass; time advances by dt per pass *)
+Theorem C04_full_run_active_state_follows_accepted_attempts :
+  forall n m dt poisson (ds : list (sdata (T:=R))) (s sf : tstate (T:=R)) atts,
+  run ROps n m dt poisson ds s = (sf, atts) ->
+  length atts = length ds
+  /\ pact sf = follow (pact s) atts
+  /\ ptime sf = ptime s + INR (length ds) * dt.
+Proof.
+  intros n m dt poisson ds s sf atts Hrun.
+  destruct (run_invariants n m dt poisson ds s sf atts Hrun) as (A & B & _ & D). repeat split; assumption.
+Qed.
+Print Assumptions C04_full_run_active_state_follows_accepted_attempts.
 
 Example C04_witness :
   attempts_ok 0 [NoAttempt; Attempt 1 true; Attempt 0 false; Attempt 0 true] = true
